@@ -63,6 +63,10 @@ func iccOut(data []byte) (line string, p *icc.Profile) {
 	if err != nil {
 		return "err", nil
 	}
+	return renderProfile(p, data), p
+}
+
+func renderProfile(p *icc.Profile, data []byte) string {
 	h := p.Header
 	var raw [6]uint16
 	for i := range raw {
@@ -94,7 +98,7 @@ func iccOut(data []byte) (line string, p *icc.Profile) {
 	default:
 		sb.WriteString(" desc=" + hexs([]byte(desc)))
 	}
-	return sb.String(), p
+	return sb.String()
 }
 
 func emitIcc(c *corrCtx, class string, data []byte) string {
@@ -306,4 +310,47 @@ func corrC17(c *corrCtx) {
 	for _, f := range realProfiles() {
 		emitIcc(c, "real", f)
 	}
+}
+
+// corrC08Icc: ReadProfile behind bufio readers of several sizes over scheduled sources must
+// give what it gives on the plain bytes.
+func corrC08Icc(c *corrCtx) {
+	r := c.rng
+	n := 40
+	if c.thorough() {
+		n = 400
+	}
+	var profiles [][]byte
+	for i := 0; i < n; i++ {
+		d, _ := randIccDesc(r, 8)
+		profiles = append(profiles, d.build())
+	}
+	profiles = append(profiles, realProfiles()...)
+	for _, p := range profiles {
+		ref, _ := iccOut(p)
+		for _, sc := range [][]int{{1}, {2}, {3}, {7}, {4095}, randSched(r)} {
+			for _, bs := range []int{16, 64, 4096} {
+				src := &schedReader{data: p, sched: sc, endErr: ioEOF()}
+				got := iccOutReader(bufioSized(src, bs), p)
+				c.emit("iccsched", "icc eof "+hexs(p), got)
+				if descClass(got) != descClass(ref) {
+					c.direct(fmt.Sprintf("C08/icc/sched=%s/buf=%d", schedStr(sc), bs), "ICC profile reader result depends on how the source segments its data",
+						map[string]interface{}{"sched": schedStr(sc), "bufsize": bs, "plain": trunc([]byte(ref), 200), "got": trunc([]byte(got), 200), "profile": hexs(trunc(p, 300))})
+				}
+			}
+		}
+	}
+}
+
+// descClass strips the description text (a multi-record mluc may legitimately yield a
+// different record on each call: Go map iteration), keeping whether there was one.
+func descClass(line string) string {
+	i := strings.LastIndex(line, " desc=")
+	if i < 0 {
+		return line
+	}
+	if line[i+6:] == "err" || line[i+6:] == "panic-escaped" {
+		return line
+	}
+	return line[:i] + " desc=some"
 }
